@@ -20,7 +20,7 @@ VERIF = os.path.dirname(os.path.dirname(os.path.abspath(__file__)))
 REPO = os.environ.get("VERIF_REPO", "/repo")
 SPECS = os.path.join(VERIF, "specs")
 HARNESS = os.path.join(VERIF, "harness")
-EVIDENCE = os.path.join(VERIF, "evidence")
+EVIDENCE = os.path.join(VERIF, "evidence") if REPO == "/repo" else os.path.join(tempfile.gettempdir(), "verif-evidence-" + re.sub(r"\W+", "_", REPO))
 REPLAYS = os.path.join(EVIDENCE, "replays")
 BINCACHE = os.path.join(VERIF, ".build")
 KNOWN = os.path.join(VERIF, "known_findings.jsonl")
@@ -78,17 +78,26 @@ class Ctx:
 # --------------------------------------------------------------------------
 # Go
 
-def harness_prepare():
-    """Make sure harness/go.mod points at REPO and go.sum is present."""
-    gomod = os.path.join(HARNESS, "go.mod")
-    src = open(gomod).read()
-    want = re.sub(r"(replace github.com/buildbarn/bb-remote-execution => )\S+",
-                  r"\g<1>" + REPO, src)
-    if want != src:
-        open(gomod, "w").write(want)
-    gosum = os.path.join(HARNESS, "go.sum")
-    if not os.path.exists(gosum):
-        shutil.copy(os.path.join(REPO, "go.sum"), gosum)
+def harness_prepare(ctx):
+    """Return the harness directory to build in.  For the default REPO this
+    is /verif/harness (go.sum copied from REPO if missing); for another
+    VERIF_REPO (mutation testing on a scratch copy) a private copy of the
+    harness with a rewritten replace directive is used."""
+    if REPO == "/repo":
+        gosum = os.path.join(HARNESS, "go.sum")
+        if not os.path.exists(gosum):
+            shutil.copy(os.path.join(REPO, "go.sum"), gosum)
+        return HARNESS
+    h = os.path.join(ctx.scratch, "harness")
+    if not os.path.exists(h):
+        shutil.copytree(HARNESS, h)
+        gomod = os.path.join(h, "go.mod")
+        src = open(gomod).read()
+        src = re.sub(r"(replace github.com/buildbarn/bb-remote-execution => )\S+",
+                     r"\g<1>" + REPO, src)
+        open(gomod, "w").write(src)
+        shutil.copy(os.path.join(REPO, "go.sum"), os.path.join(h, "go.sum"))
+    return h
 
 
 def go_env():
@@ -99,12 +108,12 @@ def go_env():
 
 def go_build_test(ctx, pkg, timeout=1500):
     """go test -c -tags verif ./pkg against REPO's working tree."""
-    harness_prepare()
+    hdir = harness_prepare(ctx)
     out = os.path.join(ctx.sub("bin"), pkg.replace("/", "_") + ".test")
     cmd = [GO, "test", "-c", "-tags", "verif", "-o", out, "./" + pkg]
     t = time.time()
     try:
-        p = subprocess.run(cmd, cwd=HARNESS, env=go_env(), capture_output=True,
+        p = subprocess.run(cmd, cwd=hdir, env=go_env(), capture_output=True,
                            text=True, timeout=timeout)
     except subprocess.TimeoutExpired:
         raise Infra("go build of %s timed out" % pkg)
@@ -353,6 +362,10 @@ def validate_traces(ctx, trace_path, module, cfg, deps, label, timeout=900,
             log("  failing trace: %s (line %d of trace, event %s)" % (reason, bad - s + 1, json.dumps(failing)[:300]))
         elif kind.startswith("known:"):
             ctx.known_hits.append(kind[6:])
+        elif kind == "other":
+            log("  NOTE other-property verdict %s (not decided by the %s check) at %s" % (reason, ctx.prop, json.dumps(failing)[:200]))
+            ctx.cov.setdefault("other_property_verdicts", 0)
+            ctx.cov["other_property_verdicts"] += 1
         else:
             ctx.cov["nonconformances"] += 1
             log("  NONCONFORMANCE property=%s %s at %s" % (ctx.prop, reason, json.dumps(failing)[:200]))
@@ -367,6 +380,28 @@ def validate_traces(ctx, trace_path, module, cfg, deps, label, timeout=900,
     ctx.cov["transitions"] += validated_events
     ctx.cov["states"] += validated_events
     return failures
+
+
+def classify_for(prop):
+    """Standard classification of a failing trace line for a check of
+    property `prop`.  Verdict strings are "<PID>:<reason>" where PID is the
+    property whose predicate failed, "NC:<reason>" for a non-conformance of
+    the model that is not a property failure; invariants are named
+    <PID>_<name>.  Unprefixed reasons count for `prop`."""
+    def f(reason, invariant, failing, trace_lines):
+        k = known_match(prop, reason, failing)
+        if k:
+            return "known:" + k
+        r = reason
+        if r.startswith("invariant:"):
+            r = r[len("invariant:"):].replace("_", ":", 1)
+        if r.startswith("NC:"):
+            return "nonconformance"
+        m = re.match(r"(C\d\d+):", r)
+        if m and m.group(1) != prop:
+            return "other"
+        return "violation"
+    return f
 
 
 def sample_lines(path, n=6, maxlen=400):
